@@ -1458,6 +1458,19 @@ class Interp:
             if isinstance(p, tuple) and p and p[0] == 'obj':
                 self.obj_store(p, target.attr, v, st, node)
                 return
+            live = [(c, q) for c, q in base.cases if self.B.AND(c, st.cond) != 0]
+            if live and all(isinstance(q, tuple) and q and q[0] == 'obj' for c, q in live):
+                # the receiver is one of several objects depending on the path: conditional store into each
+                for c, q in live:
+                    key = q[1] + '.' + target.attr
+                    self.key_info[key] = (q, target.attr)
+                    old = st.heap.get(key)
+                    if old is None:
+                        old = self.policy.attr(self, q, target.attr, st)
+                        if old is None:
+                            old = V(UNBOUND)
+                    st.heap[key] = self.v_ite(c, v, old)
+                return
             raise AnalysisError('store to attribute of non-object `%s` in %s' % (
                 ast.unparse(target), self.cur_func.qualname if self.cur_func else '?'))
         if isinstance(target, ast.Subscript):
